@@ -161,6 +161,16 @@ fn build_response(req: &Message<Vec<u8>>, ask: &Ask, j: u32) -> domain::base::me
         sim::stat("probe.service_sets_tc_itself");
         ad.header_mut().set_tc(true);
     }
+    if ask.o == 4 {
+        // An OPT record of the service's own with a lot in it (an option of
+        // 700 octets): more than a small datagram holds all by itself.
+        sim::stat("probe.service_response_with_a_big_opt_of_its_own");
+        let _ = ad.opt(|o| {
+            o.set_udp_payload_size(1400);
+            o.push_raw_option(domain::base::iana::OptionCode::from_int(65_002), 700, |t| octseq::OctetsBuilder::append_slice(t, &[0xCD; 700]))?;
+            Ok(())
+        });
+    }
     if ask.o == 1 || ask.o == 2 {
         // The service answers with an OPT record of its own (behind whatever
         // it put into the additional section): the middleware has to take it
@@ -448,7 +458,7 @@ fn gen_ask(k: u32, udp: bool) -> Ask {
         e = 5 + sim::draw("ask.plain_slow", 2) as u32;
     }
     let p = if sim::chance("ask.other_section", 1, 5) { 1 + sim::draw("ask.section", 2) as u32 } else { 0 };
-    let o = if sim::chance("ask.own_opt", 1, 6) { 1 + sim::draw("ask.own_opt_kind", 3) as u32 } else { 0 };
+    let o = if sim::chance("ask.own_opt", 1, 6) { 1 + sim::draw("ask.own_opt_kind", 4) as u32 } else { 0 };
     Ask { k, n, s, m, d, e, p, o }
 }
 
